@@ -154,10 +154,14 @@ Lemma hintsm_zones_built hints hz :
   Forall hint_okm hints -> zone_build root_domain None (hint_ops hints) = Ok hz ->
   hints_zones (zones_insert [] hz) hints.
 Proof.
-  intros Hh Hb name qt Hname Hqt.
+  intros Hh Hb.
   destruct (zone_build_R root_domain None (hint_ops hints) root_wf (Forall_op_names _ (hint_opsm_ok _ Hh)))
     as (z & Hb' & Ha & Hs & _).
   rewrite Hb in Hb'. inversion Hb'; subst z. clear Hb'.
+  split.
+  { apply no_auth_of_all. unfold zones_insert, ainsert. cbn [alookup app]. intros n z [E|[]]. inversion E; subst.
+    unfold zone_is_authoritative. rewrite Hs. reflexivity. }
+  intros name qt Hname Hqt.
   destruct (hintsm_zone_resolve hints Hh hz name qt Hb Hname Hqt) as (zr & Hzr & Hcases).
   exists hz, zr. split; [|split; [|exact Hcases]].
   - unfold zones_resolve, zones_insert, ainsert. cbn [alookup app]. rewrite Ha. unfold zones_get.
@@ -903,7 +907,7 @@ Section WarmM.
       destruct (qav_delivered_log cache o port u a q _ mc (c2, ts2) _ Hdel Hbud Hserve (msg_matches _ _ _ _ _ _ (or_introl eq_refl)) Hv)
         as (ts' & Eq & Hbud' & (e & Hlog & Hk & Ha & Hqe & Hrd)).
       exists ts', e. split; [|split; [exact Hbud'|split; [exact Hlog|split; [unfold query_toi; auto|exact HC']]]].
-      rewrite (cstep_answer cache cache_get cache_insert_all sort_names zs o mode port _ _ _ _ _ _ _ _ _ _ _ _ _ _ _ _ _ Ep Eh Eq).
+      rewrite (cstep_answer cache cache_get cache_insert_all sort_names zs o mode port _ _ _ _ _ _ _ _ _ _ _ _ _ _ _ _ _ Ep Eh Eq) by (intros r0 Hr0; apply owned_elsewhere_qname; eapply Forall_forall in Hplain; [|exact Hr0]; exact (proj1 (proj2 Hplain))).
       rewrite merge_nil_l, Hsoa. reflexivity.
     - destruct Ho as (Hb & _).
       apply best_zone_spec in Hb. destruct Hb as [Hb|[_ Hsub]]; [discriminate|].
@@ -912,7 +916,7 @@ Section WarmM.
       destruct (qav_delivered_log cache o port u a q _ mc (c2, ts2) _ Hdel Hbud Hserve (msg_matches _ _ _ _ _ _ Hrc) Hv)
         as (ts' & Eq & Hbud' & (e & Hlog & Hk & Ha & Hqe & Hrd)).
       exists ts', e. split; [|split; [exact Hbud'|split; [exact Hlog|split; [unfold query_toi; auto|exact HC']]]].
-      rewrite (cstep_answer cache cache_get cache_insert_all sort_names zs o mode port _ _ _ _ _ _ _ _ _ _ _ _ _ _ _ _ _ Ep Eh Eq).
+      rewrite (cstep_answer cache cache_get cache_insert_all sort_names zs o mode port _ _ _ _ _ _ _ _ _ _ _ _ _ _ _ _ _ Ep Eh Eq) by (intros r0 []).
       rewrite merge_nil_l, Hnil, Hsoa. reflexivity.
   Qed.
 
